@@ -136,6 +136,121 @@ RECV = {
     'DateTime': [('lit', 'DateTime', 'DateTime()')],
 }
 
+# ---------------------------------------------------------------- purity probes (every safe function x every position)
+# live shared containers / objects: (tag, dynamic type, expression).  `@H` is `host` in filter mode (the variable
+# FilterUtility binds) and get_object(Host, "sbh") elsewhere.
+POOL = [
+    ('hostvar-unsorted-strs', 'Array', '@H.vars.boot_order'), ('host-groups', 'Array', '@H.groups'),
+    ('global-unsorted-strs', 'Array', 'SbArrU'), ('global-unsorted-nums', 'Array', 'SbArr'),
+    ('hostvar-dups', 'Array', '@H.vars.dups'), ('global-dups', 'Array', 'SbDup'),
+    ('hostvar-nested-list', 'Array', '@H.vars.nested.inner.list'), ('global-nested-list', 'Array', 'SbNest.list'),
+    ('hostvar-array-of-dicts', 'Array', '@H.vars.dicts'), ('global-array-of-dicts', 'Array', 'SbDicts'),
+    ('hostvar-array-of-arrays', 'Array', '@H.vars.aoa'), ('global-array-of-arrays', 'Array', 'SbAoa'),
+    ('hostvar-empty-array', 'Array', '@H.vars.empty_arr'), ('hostvar-len1-array', 'Array', '@H.vars.one'),
+    ('hostvar-dup-strs', 'Array', '@H.vars.strs'),
+    ('host-vars', 'Dictionary', '@H.vars'), ('hostvar-nested-dict', 'Dictionary', '@H.vars.nested'),
+    ('global-dict', 'Dictionary', 'SbDict'), ('global-nested-dict', 'Dictionary', 'SbNest'),
+    ('hostvar-empty-dict', 'Dictionary', '@H.vars.empty_dict'),
+    ('globals', 'Namespace', 'globals'), ('user-namespace', 'Namespace', 'SbNs'),
+    ('host-object', 'Host', '@H'), ('apiuser-object', 'ApiUser', 'get_object(ApiUser, "sbu")'),
+    ('type', 'Type', 'Host'), ('function', 'Function', 'regex'), ('reference', 'Reference', '(&SbArrU)'),
+    ('live-string', 'String', '@H.name'),
+]
+# what the other positions hold while one position holds a live container
+FILLERS = ['[ 2, 1 ]', '"a"', '1', '@SAME']
+# native callbacks for sort/map/reduce/filter/any/all (script lambdas are not side-effect-free, so they are refused)
+CB1 = ['string', 'bool', 'len', 'typeof', 'keys', 'Json.encode', 'number', 'get_objects', 'union', 'intersection']
+CB2 = ['match', 'Math.max', 'Math.min', 'union', 'intersection', 'regex', 'cidr_match', 'Math.pow']
+RECV_BY_TYPE = {'Array': ['Array'], 'Dictionary': ['Dictionary'], 'Namespace': ['Namespace'], 'String': ['String'],
+                'Object': ['Array', 'Dictionary', 'Namespace', 'Host', 'ApiUser', 'Type', 'Function', 'Reference', 'String'],
+                'Reference': ['Reference'], 'Number': [], 'Boolean': []}
+LIT_RECV = {'String': ['"b,a c"', '""'], 'Number': ['(42)'], 'Boolean': ['true'], 'Array': ['[ 3, 1, 2 ]'], 'Dictionary': ['{ b = 1, a = 2 }']}
+PURITY_MODES = ['filter', 'console', 'filter', 'console', 'event', 'console', 'filter', 'inbox']
+
+
+def split_top(al):
+    out, depth, cur = [], 0, ''
+    for ch in al:
+        if ch in '([{':
+            depth += 1
+        elif ch in ')]}':
+            depth -= 1
+        if ch == ',' and depth == 0:
+            out.append(cur.strip())
+            cur = ''
+        else:
+            cur += ch
+    if cur.strip():
+        out.append(cur.strip())
+    return out
+
+
+def purity_probes(fn, rnd, tier, fns):
+    """every argument position (and `this`) of one function registered side-effect-free gets every live shared container
+    -> list of (mode, code-template, description tokens)"""
+    name, path = fn['name'], fn['path']
+    declared = [x for x in fn['args'].split(',') if x]
+    k = len(declared)
+    is_cb = any(a in declared for a in ('func', 'less_cmp', 'reduce', 'callback', 'cmp'))
+    out = []
+    if path.startswith('@'):
+        ty, key = path[1:].split('.', 1)
+        recvs = [(t, x, 'shared') for (_, t, x) in POOL if t in RECV_BY_TYPE.get(ty, [])] + [(ty, x, 'lit') for x in LIT_RECV.get(ty, [])]
+        if ty == 'Object':
+            recvs += [('Number', '(42)', 'lit'), ('Boolean', 'true', 'lit')]
+    else:
+        ty, key, recvs = None, '-', [(None, None, 'none')]
+    arities = sorted({k, max(0, k - 1)}) if k else [0, 1, 2, 3]
+    known = [split_top(al) for al in ARGS.get(name, []) if al not in CALLBACKS]
+    for rty, rx, rk in recvs:
+        callee = '%s.%s' % (rx, key) if rx else path
+        base = 'kind=call fn=%s recv=%s rty=%s key=%s lsafe=1' % (hx(name), rk, hx(rty or '-'), hx(key))
+        if is_cb:
+            # callback-taking method: every native callback of the fitting arity; the receiver is the live container
+            cbs = CB2 if key in ('sort', 'reduce') else CB1
+            for cbx in cbs + ([''] if key == 'sort' else []):
+                cbn = [f['name'] for f in fns if f['path'] == cbx]
+                out.append(('%s(%s)' % (callee, cbx), base + (' cb=native cbn=%s' % hx(cbn[0]) if cbn else ' cb=none nargs=0') +
+                            ' shpos=%s' % ('s' if rk == 'shared' else '-')))
+            continue
+        for n in arities:
+            if n == 0:
+                if rk != 'none':
+                    out.append(('%s()' % callee, base + ' cb=none nargs=0 shpos=%s' % ('s' if rk == 'shared' else '-')))
+                continue
+            fills = list(FILLERS)
+            for kn in known:
+                if len(kn) == n:
+                    fills.append(kn)
+            for p in range(n):
+                for (_, xt, xx) in POOL:
+                    for fl in (fills if n > 1 else fills[:1]):
+                        if isinstance(fl, list):
+                            args = list(fl)
+                        else:
+                            args = [xx if fl == '@SAME' else fl] * n
+                        args[p] = xx
+                        sh = ','.join(str(q) for q in range(n) if args[q] == xx)
+                        out.append(('%s(%s)' % (callee, ', '.join(args)),
+                                    base + ' cb=none nargs=%d shpos=%s%s' % (n, 's,' if rk == 'shared' else '', sh)))
+    # quick tier: bound the population per function, keeping every (receiver, position, container) at least once
+    seen, uniq = set(), []
+    for code, desc in out:
+        if code not in seen:
+            seen.add(code)
+            uniq.append((code, desc))
+    cap = 420 if tier == 'quick' else 100000
+    if len(uniq) > cap:
+        rnd.shuffle(uniq)
+        uniq = uniq[:cap]
+    res = []
+    for i, (code, desc) in enumerate(uniq):
+        mode = PURITY_MODES[(i + rnd.randrange(8)) % 8]
+        code = code.replace('@H', 'host' if mode == 'filter' else HOST)
+        res.append((mode, code + '\n0', desc + ' restore=1'))
+    return res
+
+
 _enum_cache = {}
 
 
@@ -248,6 +363,17 @@ def generate(seed, tier):
         rnd.shuffle(ps)
         lines = [probe(i + 1, mode, marker, code, desc) for i, (mode, marker, code, desc) in enumerate(ps)]
         add(lines, 'function-call', fn=fn['name'], safe=fn['safe'])
+    # 2c. PURITY: every function registered side-effect-free x every argument position (and `this`) x every live shared
+    #     container / object, under deep snapshots (class changed:call:<name> on any difference)
+    for fn in fns:
+        if not fn['safe']:
+            continue
+        ps = purity_probes(fn, rnd, tier, fns)
+        if not ps:
+            continue
+        for j in range(0, len(ps), 150):
+            lines = [probe(i + 1, mode, 0, code, desc) for i, (mode, code, desc) in enumerate(ps[j:j + 150])]
+            add(lines, 'purity', fn=fn['name'], safe=1)
     # 3. every type as constructor
     lines = []
     for i, t in enumerate(types):
